@@ -91,6 +91,7 @@ struct Plan
     uint64_t seed = 0;
     sim::MachineConfig machine;
     bool fault_free = false;
+    bool garbage_differential = false; // execute twice under different garbage fills; outputs must agree (C18)
     std::vector<Op> ops;
     js::Value to_json() const;
     static Plan from_json(const js::Value &v);
